@@ -136,3 +136,90 @@ preflight_harness!(c03_o1_preflight_cosine_d2, c03_o1_preflight_cosine_d2__witne
 preflight_harness!(c03_o1_preflight_inner_product_d2, c03_o1_preflight_inner_product_d2__witness, 2, DistanceMetric::InnerProduct);
 preflight_harness!(c03_o1_preflight_euclidean_d4, c03_o1_preflight_euclidean_d4__witness, 4, DistanceMetric::Euclidean);
 preflight_harness!(c03_o1_preflight_cosine_d3, c03_o1_preflight_cosine_d3__witness, 3, DistanceMetric::Cosine);
+
+// ---- C02 O2.5 (also C01: restart succeeds): a vector that passes the pre-log validation of HnswBackend::insert —
+// and is therefore written to the WAL and acknowledged — is accepted again, bit for bit, by the normalisation that
+// recovery applies to every recovered embedding (`normalize_in_place_if_needed(..)?` in
+// recover_with_hnsw_params_and_mode).  If the second pass fails the restart fails; if it changes a bit the restart
+// is not lossless.
+//   MODE 0: normalisation check enabled (default configuration): full statement.
+//   MODE 1: check disabled: the one way a logged vector can leave the accepted band without the index noticing is a
+//           squared norm that overflows (every lane is scaled by 1/sqrt(inf) = 0): such an input must be refused.
+//           (The full statement with the check disabled needs a proof that sqrt/multiply keep |v|^2 within 2% of 1
+//           for all inputs: no verdict in 15 min for dimension 2; attempted for dimension 1 in MODE 2, thorough tier.)
+//   MODE 2: check disabled, full statement.
+fn replay_normalize_body<const DIM: usize>(distance: DistanceMetric, mode: u8, witness: bool) {
+    let a: [f32; DIM] = kani::any();
+    let mut v: Vec<f32> = Vec::with_capacity(DIM);
+    let mut i = 0;
+    while i < DIM {
+        v.push(a[i]);
+        i += 1;
+    }
+    let disable = mode != 0;
+    let norm_sq_in = crate::simd::sum_squares_f32(&v);
+    let index = crate::hnsw_index::verif_proofs::index_with_noop_backend(DIM, 8, 0, distance, disable);
+    let pre = preflight_insert(&index, distance, &mut v);
+    if witness {
+        kani::cover!(pre.is_ok(), "some vector is accepted");
+        kani::cover!(pre.is_err(), "some vector is refused");
+        std::mem::forget(pre);
+        std::mem::forget(index);
+        return;
+    }
+    if pre.is_ok() {
+        if mode == 1 {
+            if !matches!(distance, DistanceMetric::Euclidean) {
+                assert!(norm_sq_in.is_finite(), "C02/C01: a vector whose squared norm overflows is refused before the WAL append (it would be logged as all zeros, which the replay-time normalisation refuses: restart does not fail on it)");
+            }
+        } else {
+            let mut logged = [0u32; DIM];
+            let mut i = 0;
+            while i < DIM {
+                logged[i] = v[i].to_bits();
+                i += 1;
+            }
+            let again = normalize_in_place_if_needed(distance, &mut v);
+            assert!(again.is_ok(), "C02/C01: a vector that was logged and acknowledged is accepted by the replay-time normalisation (restart does not fail on it)");
+            let mut i = 0;
+            while i < DIM {
+                assert!(v[i].to_bits() == logged[i], "C02: replay-time normalisation leaves a logged vector bit-identical");
+                i += 1;
+            }
+            std::mem::forget(again);
+        }
+    }
+    std::mem::forget(pre);
+    std::mem::forget(index);
+}
+
+macro_rules! replay_normalize_harness {
+    ($name:ident, $wname:ident, $dim:expr, $metric:expr, $mode:expr) => {
+        #[kani::proof]
+        #[kani::unwind(6)]
+        #[kani::stub(std::fmt::format, crate::verif_support::fmt_format_stub)]
+        #[kani::stub(std::backtrace::Backtrace::capture, crate::verif_support::backtrace_capture_stub)]
+        #[kani::stub(crate::simd::detect_best_f32_kernels, crate::simd::verif_proofs::scalar_table)]
+        fn $name() {
+            replay_normalize_body::<$dim>($metric, $mode, false);
+        }
+        #[kani::proof]
+        #[kani::unwind(6)]
+        #[kani::stub(std::fmt::format, crate::verif_support::fmt_format_stub)]
+        #[kani::stub(std::backtrace::Backtrace::capture, crate::verif_support::backtrace_capture_stub)]
+        #[kani::stub(crate::simd::detect_best_f32_kernels, crate::simd::verif_proofs::scalar_table)]
+        fn $wname() {
+            replay_normalize_body::<$dim>($metric, $mode, true);
+        }
+    };
+}
+
+// (MODE 0 at dimension 2 for Cosine/InnerProduct did not finish in 20 min: the squared norm of the normalised vector is
+// computed twice — by validate_vector and by the second normalisation — and CBMC has to prove the two multiplier
+// circuits equal; dimension 1 is used instead.)
+replay_normalize_harness!(c02_o5_replay_normalize_checked_cosine_d1, c02_o5_replay_normalize_checked_cosine_d1__witness, 1, DistanceMetric::Cosine, 0);
+replay_normalize_harness!(c02_o5_replay_normalize_checked_inner_product_d1, c02_o5_replay_normalize_checked_inner_product_d1__witness, 1, DistanceMetric::InnerProduct, 0);
+replay_normalize_harness!(c02_o5_replay_normalize_checked_euclidean_d2, c02_o5_replay_normalize_checked_euclidean_d2__witness, 2, DistanceMetric::Euclidean, 0);
+replay_normalize_harness!(c02_o5_replay_normalize_overflow_cosine_d2, c02_o5_replay_normalize_overflow_cosine_d2__witness, 2, DistanceMetric::Cosine, 1);
+replay_normalize_harness!(c02_o5_replay_normalize_overflow_inner_product_d2, c02_o5_replay_normalize_overflow_inner_product_d2__witness, 2, DistanceMetric::InnerProduct, 1);
+replay_normalize_harness!(c02_o5_replay_normalize_unchecked_cosine_d1, c02_o5_replay_normalize_unchecked_cosine_d1__witness, 1, DistanceMetric::Cosine, 2);
